@@ -307,6 +307,26 @@ func c12Others(fs *Facts) {
 		}
 	}
 	fs.Tri("expiredCountsAll", all, whereAll)
+	// gateway ShiftMatching: is the filter narrowed to the planner's residual for bucket candidates?
+	re, whereRe := Unknown, "app/server/gateway/gateway_shift_matching.go"
+	if g, err := Load("app/server/gateway/gateway_shift_matching.go"); err == nil {
+		if fn := g.Func("", "buildShiftMatchingPredicate"); fn != nil {
+			whereRe = c14Where(g, fn)
+			full, narrowed := false, false
+			for _, st := range g.Stmts(fn) {
+				switch g.Str(st) {
+				case "filterEval := filters":
+					full = true
+				case "filterEval = plan.Residual":
+					narrowed = true
+				}
+			}
+			if full && g.Contains(fn, "evaluateNativeFilterGroup(t, filterEval)") {
+				re = TriOf(!narrowed)
+			}
+		}
+	}
+	fs.Tri("shiftReevaluatesFilter", re, whereRe)
 
 	g, err := Load(c12Beacon)
 	sel, sm := Unknown, Unknown
